@@ -18,7 +18,9 @@ RULE = ("random histories (quick 30 steps, thorough up to 80) of: fresh vectors 
         "handles, gc.collect() at random points and bursts of short-lived same-size vectors/tuples to provoke identity reuse. "
         "Every write attempt is judged: refused iff (non-empty and another LIVE object `is`-shares the storage tuple); accepted writes "
         "must leave every other live object's contents unchanged; the Lean registry model, fed with the real storage identities, "
-        "must predict every accept/refuse. Plus a unit family on a private _AliasTracker instance: register / unregister / "
+        "must predict every accept/refuse; after every step the tracker's REAL registry is inspected for exactness (no live object "
+        "under an identity that is not its storage, every live non-empty object registered under its own) when it can be located. "
+        "Plus a unit family on a private _AliasTracker instance: register / unregister / "
         "check_writable called directly with identities 1–4 reused at will and objects killed at chosen points, judged against "
         "'refuse iff ≥2 live objects currently registered under the identity' and against the model functions (non-trivial = a "
         "refusal and a check after a kill). non-trivial (histories) = the history contains ≥1 judged write after at least one drop or storage "
@@ -37,7 +39,8 @@ LEVEL_TEXT = ("Proof over a model of alias_tracker.py and of the unregister/swap
               "changes nothing (refused_changes_nothing); an accepted write never changes what another live object shows provided the "
               "interpreter does not reissue the identity of storage still in use (no_leak); the tracker class driven directly with arbitrary "
               "identities refines 'the set of registered (object, identity) pairs' (tracker_refines_spec). Tied to the code by trace validation in which "
-              "the model is fed the interpreter's REAL tuple identities and must predict every accept/refuse of the real library.")
+              "the model is fed the interpreter's REAL tuple identities and must predict every accept/refuse of the real library, and by "
+              "checking the invariant of registry_exact on the implementation's own registry after every step.")
 LEVEL_NOTE = ("Trusted: Lean kernel + standard axioms; the snapshot/diff code that turns real histories into model events; CPython's "
               "refcounting and weak-reference semantics. The runtime part no model can exhibit — which identity CPython recycles — is "
               "taken from the trace and universally quantified in the theorems. That every library path follows the protocol is "
@@ -69,6 +72,24 @@ def _vector_types():
             todo += c.__subclasses__()
         _VT = {c for c in seen if c.__name__ != "Row"}
     return _VT
+
+
+def _registry():
+    """the live tracker's registry {identity: [weak references]}, found without relying on attribute names; None if the
+    tracker keeps no such dict (then the registry oracle is simply off)"""
+    try:
+        from serif import alias_tracker as at
+    except Exception:
+        return None
+    for holder in vars(at).values():
+        d = getattr(holder, "__dict__", None)
+        if not isinstance(d, dict) or isinstance(holder, type):
+            continue
+        for v in d.values():
+            if isinstance(v, dict) and all(isinstance(k, int) and isinstance(x, list) for k, x in v.items()) \
+                    and any(isinstance(r, weakref.ref) for x in v.values() for r in x):
+                return v
+    return None
 
 
 class Tracker:
@@ -118,6 +139,33 @@ class Tracker:
         for k in [k for k, (r, s) in self.known.items() if r() is None]:
             del self.known[k]
         return cur, live
+
+    def registry_faults(self, live):
+        """exactness of the REAL registry (the invariant `registry_exact` is about), so that a broken protocol step shows at once
+        instead of only when the interpreter happens to recycle the identity: (stale) a live object registered under an
+        identity that is not its storage; (missing) a live object with non-empty storage not registered under it"""
+        reg = _registry()
+        if reg is None:
+            return None
+        by_obj = {id(o): s for s, o in live.items()}
+        stale, missing = [], []
+        for k, refs in list(reg.items()):
+            for r in list(refs):
+                o = r() if isinstance(r, weakref.ref) else None
+                if o is None:
+                    continue
+                und = storage(o)
+                if und is not None and id(und) != k and id(o) in by_obj:
+                    stale.append([by_obj[id(o)], 0 if k == EMPTY_ID else k])
+                del o, und
+        for s_, o in live.items():
+            und = storage(o)
+            if und:
+                refs = reg.get(id(und)) or []
+                if not any(isinstance(r, weakref.ref) and r() is o for r in refs):
+                    missing.append(s_)
+            del und
+        return {"stale": sorted(stale), "missing": sorted(missing)}
 
     def diff_events(self, cur, skip=()):
         ev = []
@@ -411,6 +459,7 @@ def run_history(spec):
                     continue          # some other refusal (type error …): not an alias decision
                 del o
                 cur, live = tr.snapshot()
+                rf = tr.registry_faults(live)
                 del live
                 changed = sorted(s for s in cur if s != me and s in before and cur[s][1] != before[s]
                                  and not any(u >= 10 ** 6 for u in cur[s][1]))
@@ -429,6 +478,9 @@ def run_history(spec):
                 if not refused and cur[me][0] in freed:
                     stats["reuse"] += 1
                 events += tr.diff_events(cur, skip=(me,))
+                if rf and (rf["stale"] or rf["missing"]):
+                    events.append({"e": "regcheck", "stale": rf["stale"], "missing": rf["missing"], "desc": st})
+                stats["regchecks"] = stats.get("regchecks", 0) + (rf is not None)
                 tr.prev = cur
             else:
                 try:
@@ -436,8 +488,12 @@ def run_history(spec):
                 except Exception as e:
                     pass
                 cur, live = tr.snapshot()
+                rf = tr.registry_faults(live)
                 del live
                 evs = tr.diff_events(cur)
+                if rf and (rf["stale"] or rf["missing"]):
+                    evs.append({"e": "regcheck", "stale": rf["stale"], "missing": rf["missing"], "desc": st})
+                stats["regchecks"] = stats.get("regchecks", 0) + (rf is not None)
                 if st["op"] in UNSHARED_OPS:
                     evs += [{"e": "fresh", "o": e["o"], "desc": st} for e in evs if e["e"] == "create"]
                 for e in evs:
